@@ -49,13 +49,16 @@ func VerifyPE(r io.ReadSeeker, skipDigests bool) ([]PESignature, error) {
 	} else if hvals.certSize == 0 {
 		return nil, sigerrors.NotSignedError{Type: "PECOFF"}
 	}
-	// Read certificate table
-	sigblob := make([]byte, hvals.certSize)
+	// Read certificate table. Its size comes from the (untrusted) header:
+	// read what is there instead of allocating by it.
 	if _, err := r.Seek(hvals.certStart, 0); err != nil {
 		return nil, err
 	}
-	if _, err := io.ReadFull(r, sigblob); err != nil {
+	sigblob, err := io.ReadAll(io.LimitReader(r, hvals.certSize))
+	if err != nil {
 		return nil, err
+	} else if int64(len(sigblob)) != hvals.certSize {
+		return nil, io.ErrUnexpectedEOF
 	}
 	// Parse and verify signatures
 	if skipDigests {
